@@ -439,3 +439,23 @@ claim("C14",
            "provenance through groups is claimed only for in-order templates (the characterizable case of the property).",
       technique="Lean 4 proof over executable model (regex engine as parameter) + differential correspondence + provenance oracle",
       design_ref="DESIGN.md §5 C14")
+
+
+# Final wording: each property's builder wrote claims/<Cnn>.json (text, note, theorem split) after the independent audit
+# round; where such a file exists it replaces the text and note above (kept as the history of the build).
+def _load_final_wording():
+    import json as _json
+    import os as _os
+    root = _os.path.dirname(_os.path.dirname(_os.path.dirname(_os.path.abspath(__file__))))
+    for _pid in sorted(CLAIMS):
+        _fn = _os.path.join(root, "claims", _pid + ".json")
+        if _os.path.exists(_fn):
+            with open(_fn, encoding="utf-8") as _f:
+                _d = _json.load(_f)
+            CLAIMS[_pid]["text"] = _d["text"]
+            CLAIMS[_pid]["note"] = _d["note"]
+            if "theorems" in _d:
+                CLAIMS[_pid]["theorems"] = _d["theorems"]
+
+
+_load_final_wording()
